@@ -3,6 +3,7 @@ package pgdump
 import (
 	"encoding/hex"
 	"fmt"
+	"io"
 	"os"
 	"strconv"
 	"strings"
@@ -131,9 +132,9 @@ func ReadBlockRange(path string, blockRange *BlockRange) ([]byte, error) {
 		return nil, err
 	}
 
-	// Read blocks
+	// Read blocks (a single Read returns at most 1 GiB: read until the range is complete)
 	data := make([]byte, bytesToRead)
-	n, err := f.Read(data)
+	n, err := io.ReadFull(f, data)
 	if err != nil {
 		return nil, err
 	}
